@@ -238,7 +238,7 @@ def mutate(rng, text, n=None):
         if not toks:
             break
         i = rng.below(len(toks))
-        op = rng.weighted([("delete", 4), ("dup", 2), ("swap", 2), ("replace", 3), ("insert", 2), ("truncate", 1), ("split", 1), ("drop_prefix", 1)])
+        op = rng.weighted([("delete", 4), ("dup", 2), ("swap", 2), ("replace", 3), ("insert", 2), ("truncate", 1), ("split", 1), ("drop_prefix", 1), ("leading_stray", 1)])
         if op == "delete":
             del toks[i]
         elif op == "dup":
@@ -254,6 +254,9 @@ def mutate(rng, text, n=None):
             toks = toks[:i]
         elif op == "drop_prefix":
             toks = toks[i:]
+        elif op == "leading_stray":
+            # a stray token at the very beginning of the document
+            toks.insert(0, rng.choice([".", ",", ")", "}", "]", "=", ";", "::", "=>", "|", "..", "@", '"']))
         elif op == "split" and len(toks[i]) > 1:
             k = rng.between(1, len(toks[i]) - 1)
             toks[i:i + 1] = [toks[i][:k], rng.choice([" ", "\n", ""]), toks[i][k:]]
@@ -297,7 +300,22 @@ def sample_position(rng, text):
     """-> (class, line, character) in LSP coordinates (UTF-16 units)"""
     lines = lsp_client.split_lines(text)
     k = rng.weighted([("token_start", 6), ("inside_token", 4), ("line_end", 2), ("past_line_end", 1), ("one_past_last_line", 1),
-                      ("far_outside", 1), ("u32_max", 1), ("origin", 1)])
+                      ("far_outside", 1), ("u32_max", 1), ("origin", 1), ("near_non_ascii", 2), ("first_tokens", 1)])
+    if k == "near_non_ascii":
+        cands = [i for i, l in enumerate(lines) if any(ord(c) > 127 for c in l)]
+        if cands:
+            li = rng.choice(cands)
+            idx = rng.choice([n for n, c in enumerate(lines[li]) if ord(c) > 127])
+            byte_off = len(lines[li][:idx].encode("utf-8"))
+            # around the character's first byte, counted in bytes and in UTF-16 units
+            return k, li, rng.choice([byte_off, byte_off + 1, byte_off + 2, byte_off + 3, lsp_client.utf16_len(lines[li][:idx]) + 1])
+        k = "inside_token"
+    if k == "first_tokens":
+        spans = [(m.start(), m.end()) for m in TOKEN_RE.finditer(lines[0]) if not m.group().isspace()][:3]
+        if spans:
+            s_, e_ = rng.choice(spans)
+            return k, 0, lsp_client.utf16_len(lines[0][:rng.between(s_, max(s_, e_ - 1))])
+        k = "origin"
     if k in ("token_start", "inside_token"):
         # pick a token by scanning a random non-empty line
         cands = [i for i, l in enumerate(lines) if l.strip()]
